@@ -599,8 +599,12 @@ def watch_history(ctx, res, cp, prop, h, length=5, stack=False, ext_sources=Fals
     hist[2] = "loop add r0 r0 #1\nbr loop\nhalt\n"
     # ... and an invalid one arrives after a valid one as an *older* file moved into place (a restored
     # backup: rename keeps the old modification time)
-    hist[3] = "loop add r0 r0 #1\nbrz nowhere\nhalt\n"
+    # ... and it is the previous version with the label's definition gone and a use left behind: the label
+    # the previous re-check resolved last is exactly the one that no longer exists
+    hist[3] = "add r0 r0 #1\nbr loop\nhalt\n"
     old_mtime_steps = {3}
+    if length >= 6:
+        hist[5] = "loop add r0 r0 #1\nbrz nowhere\nhalt\n"
     path = os.path.join(d, "w.asm")
     _write(path, "halt\n")
     exe = common.cli_bin(ctx)
@@ -1204,8 +1208,12 @@ def c02_cli(ctx, res):
             name = "rd_%s_%d.asm" % (traps, k)
             _write(os.path.join(d, name), "\n".join(lines) + "\n")
             for data in inputs:
-                for via in ("pipe", "file"):
-                    if via == "file":
+                for via in ("pipe", "file", "debugger"):
+                    if via == "debugger":
+                        # the same program started by `lace debug --command continue`: the command reader shares
+                        # standard input with the program but takes nothing from it while the script lasts
+                        r = lace(ctx, ["debug", name, "--minimal", "--command", "continue"], stdin=data, cwd=d, timeout=30)
+                    elif via == "file":
                         _write(os.path.join(d, "input.bin"), data)
                         with open(os.path.join(d, "input.bin"), "rb") as f:
                             r = lace(ctx, ["run", name, "--minimal"], stdin_file=f, cwd=d, timeout=30)
@@ -1230,7 +1238,7 @@ def c02_cli(ctx, res):
                                     % (k, traps, data[:12], via, r.rc, bad), detail)
                     elif k >= 2:
                         res.cls("l2:input_traps:second_and_later_bytes")
-    res.require(["l2:input_traps:getc:pipe", "l2:input_traps:in:file", "l2:input_traps:mixed:pipe", "l2:input_traps:second_and_later_bytes", "l2:input_traps:input_ends_early"], "L2")
+    res.require(["l2:input_traps:getc:pipe", "l2:input_traps:in:file", "l2:input_traps:mixed:pipe", "l2:input_traps:getc:debugger", "l2:input_traps:second_and_later_bytes", "l2:input_traps:input_ends_early"], "L2")
 
 
 # ------------------------------------------------------------------ C10 (L2: stepping scripts through the real readers)
@@ -1849,7 +1857,30 @@ def c01_cli(ctx, res, limit):
                         % (c.rc, None if data is None else len(data), len(want)),
                         {"source": e["source"][-800:], "compile": c.brief(), "destination_pre_existed": ix % 2 == 0,
                          "file_hex": None if data is None else data[:64].hex(), "expected_hex": want[:64].hex()})
-    res.require(["l2:compile"], "L2")
+    # what runs is the encoding of the source that is there now: an object file with the same stem in the
+    # same directory (newer than the source: the output of an earlier `compile` of other text) is not it
+    d2 = _dir(ctx, "c01_sibling")
+    tags = ["ALPHA", "BRAVO", "CHARLIE", "DELTA", "ECHO", "FOXTROT"]
+
+    def prog(tag):
+        return "lea r0 m\nputs\nhalt\nm .stringz \"%s\"\n" % tag
+    for k, tag in enumerate(tags):
+        other = tags[(k + 1) % len(tags)]
+        _write(os.path.join(d2, "o%d.asm" % k), prog(other))
+        for ext in ("lc3", "obj")[:1 + k % 2]:
+            lace(ctx, ["compile", "o%d.asm" % k, "p%d.%s" % (k, ext)], cwd=d2)
+        _write(os.path.join(d2, "p%d.asm" % k), prog(tag))
+        old = time.time() - 7200 - k
+        os.utime(os.path.join(d2, "p%d.asm" % k), (old, old))
+        for args in (["run", "p%d.asm" % k, "--minimal"], ["p%d.asm" % k, "--minimal"] if k % 2 else ["run", "--minimal", "p%d.asm" % k]):
+            r = lace(ctx, args, cwd=d2, timeout=30)
+            res.evaluations += 1
+            res.cls("l2:run_next_to_object_file_of_other_text")
+            body, _h = program_output(r.out)
+            if r.rc != 0 or tag.encode() not in body or other.encode() in body:
+                res.violate("C01/cli/ran-another-image", "`lace %s` printed %r (exit %s): the source prints %r, the object file lying next to it %r"
+                            % (" ".join(args), body[-40:], r.rc, tag, other), dict(r.brief(), source=prog(tag)))
+    res.require(["l2:compile", "l2:run_next_to_object_file_of_other_text"], "L2")
 
 
 # ------------------------------------------------------------------ valgrind samples (thorough)
